@@ -39,6 +39,7 @@ def c05(tier, seed):
 
 
 ENGINES = {
+    "layout": ({"C01"}, "size/align observers (full cross product in layoutx0..7), materialisation, drop tiling, round trips"),
     "views": ({"C02"}, "borrowed views: address/extent, write-through, slice reinterpretation outcome matrix, by-value conversions"),
     "heap": ({"C15", "C16"}, "alloc-feature operations under a recording allocator; panic and allocation-failure injection; small-stack children"),
     "collect": ({"C07"}, "collecting forms vs scripted sources (poll/hint logs)"),
@@ -163,7 +164,42 @@ def c02(tier, seed):
     ]
 
 
+def c01(tier, seed):
+    parts = [Run(f"layoutx{k}", "debug", [], shards=1, label=f"layoutx{k}/debug") for k in range(8)]
+    if tier == "quick":
+        return [Run("layout", "debug", [], shards=2)] + parts + [
+            Run("layout", "miri", ["--part", "roundtrip,lattice", "--maxn", "8"], shards=16, label="layout/miri(N<=8)"),
+        ]
+    return [Run("layout", "debug", [], shards=4), Run("layout", "release", [], shards=4)] + parts + [
+        Run(f"layoutx{k}", "release", [], shards=1, label=f"layoutx{k}/release") for k in range(8)
+    ] + [
+        Run("layout", "miri", ["--part", "roundtrip,lattice,tiling", "--maxn", "100"], shards=32, label="layout/miri(N<=100)"),
+    ]
+
+
 SPECS = {
+    "C01": dict(
+        engine="layout",
+        technique="compiler-computed size/align observers over the full (164 layouts x every N in 0..=1024) cross product and all larger typenum-named lengths; materialised arrays with address/extent checks; drop-glue tiling via the ledger; Miri round trips",
+        level="exploration",
+        level_text=("size_of/align_of of GenericArray<T,N> (and of its MaybeUninit twin) are compared with N*size_of::<T>() and align_of::<T>() for "
+                    "164 element layouts (every byte size 0..=64, every alignment 2..64 x every multiple size, aligned zero-sized types up to 4096, "
+                    "padded tuples, packed structs, niches, nested GenericArrays) x EVERY N in 0..=1024, plus every larger length typenum names "
+                    "(2^k, 2^k-1, 10^k, up to 2^62) whose total size stays below rustc's 2^61-byte object bound: exhaustive for the stated "
+                    "quantifier. On the length lattice each array is materialised inside a frame: slice views must start at the array, have N "
+                    "elements, span size_of bytes, every element at base+i*size, neighbours untouched; drop glue of GenericArray<Tok,N> must "
+                    "release exactly N identities for every N<=1024; initialised values round-trip through from_array / native-array view / "
+                    "into_array (under Miri a view touching padding or leaving the object is an error)."),
+        level_note="Trusted: rustc's size_of/align_of (they ARE the layout), the harness' address arithmetic, Miri.",
+        runs=c01,
+        min_cases=150000,
+        must_count=["ledger.drops"],
+        exhaustive={"quick": True, "thorough": True},
+        rule=("one case = (observer, layout, N): size_align for all 164 x 1025 pairs and the admissible (layout, large N) pairs; materialise and "
+              "round trip on the lattice; drop tiling for every N <= 1024; non-trivial = N > 0 with a sized element, or an alignment > 1"),
+        explanation="the space named by the quantifier is enumerated completely at compile time (one monomorphisation per case)",
+        assumptions=["element layouts with size > 64 or alignment > 4096 are not instantiated", "large lengths only where N*size < 2^61 (rustc rejects larger objects)"],
+    ),
     "C02": dict(
         engine="views",
         technique="address/extent monitor on every returned reference + write-through/read-back across all views with canaries + outcome matrix for slice reinterpretation; ledger for by-value conversions; Miri/ASan",
